@@ -58,7 +58,10 @@ def make_classes(spec: list) -> list:
         ns: dict[str, Any] = {}
         for s in c["signals"]:
             ns[s["attr"]] = Signal(EVS[s["ev"]])
-        base = out[c["base"]] if c.get("base") is not None else object
+        bases: tuple = (out[c["base"]],) if c.get("base") is not None else (object,)
+        if c.get("bases"):
+            # several independent bases (mix-ins), each declaring signals of its own
+            bases = tuple(out[i] for i in c["bases"])
         if c.get("falsy") == "len":
             # an owner that is an (empty) container: a perfectly good, falsy instance
             ns["__len__"] = lambda self: 0
@@ -69,7 +72,7 @@ def make_classes(spec: list) -> list:
             # still different instances with channels of their own
             ns["__eq__"] = lambda self, other: type(other) is type(self)
             ns["__hash__"] = lambda self: 7
-        out.append(type(c["name"], (base,), ns))
+        out.append(type(c["name"], bases, ns))
     return out
 
 
@@ -79,6 +82,8 @@ def declared(spec: list, ci: int) -> dict:
     c = spec[ci]
     if c.get("base") is not None:
         d.update(declared(spec, c["base"]))
+    for bi in reversed(c.get("bases") or ()):
+        d.update(declared(spec, bi))  # (the first base wins, as in the MRO)
     for s in c["signals"]:
         d[s["attr"]] = s["ev"]
     return d
@@ -386,10 +391,14 @@ class H:
         attrs = sorted(declared(self.plan["classes"], spec["cls"]))
         results = []
         for rnd in range(spec.get("rounds", 2)):
+            attr = attrs[rnd % len(attrs)]
+            other = attrs[(rnd + 1) % len(attrs)] if len(attrs) > 1 else None
+            evc = EVS[declared(self.plan["classes"], spec["cls"])[attr]]
+            # 1. a short-lived instance delivers to its own subscriber
             o = cls()
             got: list = []
-            attr = attrs[rnd % len(attrs)]
-            evc = EVS[declared(self.plan["classes"], spec["cls"])[attr]]
+            if other is not None:
+                getattr(o, other)  # (another signal of the owner is the first one ever touched)
             async with getattr(o, attr).stream_events() as stream:
                 e = evc(-1 - rnd)
                 getattr(o, attr).dispatch(e)
@@ -397,37 +406,70 @@ class H:
                 ev = await stream.__anext__()
                 got.append(ev is e and ev.source is o and ev.topic == attr)
             same = getattr(o, attr) is getattr(o, attr)
-            ref = weakref.ref(o)
-            old_id = id(o)
             del o, ev, e, stream
-            gc.collect()
-            collected = ref() is None
-            # a batch of new instances, all allocated before any of them is used; the one
-            # that reuses the address of the collected instance (CPython recycles freed
-            # blocks, so there nearly always is one) is used first: each must get its own
-            # channel bound to itself
-            batch = [cls() for _ in range(256)]
-            batch.sort(key=lambda ob: id(ob) != old_id)
+            # 2. such an instance is collectable, and a new instance at its address gets
+            # channels of its own.  Whether the allocator hands the freed block out again is
+            # up to it: try (without a single suspension point, so that the number of tries
+            # leaves no mark on the schedule) until it has.
+            collected = True
             fresh_ok = True
+            for _attempt in range(12):
+                o = cls()
+                if other is not None:
+                    getattr(o, other)
+                getattr(o, attr).dispatch(evc(-3 - rnd))
+                ref = weakref.ref(o)
+                old_id = id(o)
+                del o
+                if ref() is not None:
+                    gc.collect()
+                collected = collected and ref() is None
+                batch = [cls() for _ in range(256)]
+                batch.sort(key=lambda ob: id(ob) != old_id)
+                if id(batch[0]) == old_id:
+                    break
             for ob in batch[:24]:
                 e2 = evc(-1000)
                 getattr(ob, attr).dispatch(e2)
                 if e2.source is not ob or e2.topic != attr or getattr(ob, attr) is not getattr(ob, attr):
                     fresh_ok = False
             del batch
-            # ... and an owner is collectable while somebody who holds only its *bound signal* is
-            # still subscribed to it
-            o2 = cls()
-            sig2 = getattr(o2, attr)
-            ref2 = weakref.ref(o2)
-            cm2 = sig2.stream_events()
-            stream2 = await cm2.__aenter__()
-            del o2
-            gc.collect()
-            collected_subscribed = ref2() is None
-            await cm2.__aexit__(None, None, None)
-            del stream2, cm2, sig2
-            results.append({"delivered_own": got[0] and fresh_ok, "same": same, "collected": collected, "collected_subscribed": collected_subscribed})
+            # 3. an owner is collectable while somebody who holds only its *bound signal* is
+            # still subscribed to it - and what later instances of the class dispatch (the one
+            # at the collected owner's address first) is none of that subscriber's business
+            collected_subscribed = True
+            stale: list = []
+            for _attempt in range(12):
+                o2 = cls()
+                if other is not None:
+                    getattr(o2, other)
+                sig2 = getattr(o2, attr)
+                ref2 = weakref.ref(o2)
+                old2 = id(o2)
+                cm2 = sig2.stream_events()
+                stream2 = await cm2.__aenter__()  # (subscribing never suspends)
+                del o2
+                if ref2() is not None:
+                    gc.collect()
+                collected_subscribed = collected_subscribed and ref2() is None
+                later = [cls() for _ in range(128)]
+                later.sort(key=lambda ob: id(ob) != old2)
+                if id(later[0]) == old2 or _attempt == 11:
+                    break
+                stale.append(cm2)
+                del later
+            adopted = any(getattr(ob, attr) is sig2 for ob in later[:4])
+            for ob in later[:4]:
+                getattr(ob, attr).dispatch(evc(-2000))
+            leaked = False
+            with move_on_after(0.25):
+                await stream2.__anext__()
+                leaked = True
+            del later
+            for cm in stale + [cm2]:
+                await cm.__aexit__(None, None, None)
+            del stream2, cm2, sig2, stale
+            results.append({"delivered_own": got[0] and fresh_ok, "same": same, "collected": collected, "collected_subscribed": collected_subscribed, "stale_leak": leaked or adopted})
         sim.log("gcprobe", cls=spec["cls"], results=results)
 
 
@@ -718,6 +760,9 @@ def oracle(sim: Sim, plan: dict) -> list[dict]:
                     v("C11.weakref", "kept_alive", f"instance with bound+used signals was not collectable (round {i})")
                 if res.get("collected_subscribed") is False:
                     v("C11.weakref", "kept_alive_by_subscription", f"an owner was not collectable while a subscriber held (only) its bound signal (round {i})")
+                if res.get("stale_leak"):
+                    v("C11.channel", "leak@subscriber_of_collected_owner", f"events dispatched on new instances reached a subscriber of the same signal of an owner that had been garbage collected (or the new instance was handed that owner's bound signal) (round {i})")
+                    v("C10.window", "foreign_channel@subscriber_of_collected_owner", f"a subscriber of a garbage collected owner's signal received events dispatched on new instances of the class (round {i})")
                 if not res["delivered_own"] or not res["same"]:
                     v("C11.channel", "fresh_instance", f"a fresh instance did not get its own working channel: {res}")
                     v("C10.stamp", "fresh_instance", f"an event dispatched on a fresh instance was not delivered to its own subscriber stamped with that instance as source: {res}")
@@ -756,7 +801,7 @@ def oracle(sim: Sim, plan: dict) -> list[dict]:
 # ============================================================================ generator
 def gen(rng: random.Random, tier: str, prop: str) -> dict:
     backend = "asyncio" if rng.random() < 0.6 else "trio"
-    ncls = rng.choice((1, 1, 2, 3))
+    ncls = rng.choice((1, 1, 2, 3, 3))
     classes = []
     for ci in range(ncls):
         base = None
@@ -768,6 +813,12 @@ def gen(rng: random.Random, tier: str, prop: str) -> dict:
             cspec["falsy"] = rng.choice(("len", "bool"))
         if rng.random() < 0.12:
             cspec["eq"] = True
+        roots = [i for i, c_ in enumerate(classes) if c_.get("base") is None and not c_.get("bases")]
+        if base is None and len(roots) >= 2 and rng.random() < 0.5:
+            # combines two independent signal-declaring bases (often adding nothing itself)
+            cspec["bases"] = rng.sample(roots, 2)
+            if rng.random() < 0.5:
+                cspec["signals"] = []
         classes.append(cspec)
     ninst = rng.choice((1, 2, 2, 3))
     instances = [{"id": f"i{k}", "cls": rng.randrange(ncls)} for k in range(ninst)]
